@@ -483,6 +483,7 @@ def check_sub(case):
 
 
 SUBCHECKS = [
-    SubCheck("evaluate", lambda: case_eval, check_eval, quick=8000, thorough=300000, procs_quick=6),
+    SubCheck("evaluate", lambda: case_eval, check_eval, quick=8000, thorough=300000, procs_quick=6,
+             fuzz={"quick": 3000, "thorough": 200000, "modules": ['mpf.core.placeholder_manager']}),
     SubCheck("subscribe", lambda: case_sub, check_sub, quick=800, thorough=10000, procs_quick=4),
 ]
